@@ -64,7 +64,8 @@ LogIds(i) == Fresh(Raw(i - 1).logs, Raw(i).logs, Len(Els(i)) + 1)
 \* what Bulk prescribes for a sequential request
 X(i) == BulkApply(Cur(i), iks, Els(i), Opts(i), Rq(i).fault, TxIds(i), LogIds(i))
 \* the outcomes Bulk allows for a parallel bulk
-XP(i) == ParallelOutcomes(Cur(i), iks, Els(i), Opts(i), TxIds(i), LogIds(i))
+Aborted(i) == {j \in DOMAIN Obs(i).els : Obs(i).els[j].err = "aborted"}
+XP(i) == ParallelOutcomesA(Cur(i), iks, Els(i), Opts(i), TxIds(i), LogIds(i), Aborted(i))
 
 Init == l = 0 /\ iks = <<>>
 
@@ -86,7 +87,7 @@ IsSingle(i) == Rq(i).k = "single"
 \* an observed result against a prescribed one
 ResMatch(o, s, el, rollback) ==
   /\ o.ok = s.ok
-  /\ o.err = s.err
+  /\ (o.err = s.err \/ (o.err = "aborted" /\ ~s.run))
   /\ (s.ok /\ el.k \in {"create", "revert"} /\ (s.hit \/ s.cm) /\ ~rollback => o.id = s.id)
 
 \* C32: exactly one result per element (none when the request as a whole fails)
